@@ -361,7 +361,10 @@ def verify_function(c, registry, feas_timeout=300):
                 for nm, kd in (cl['kwargs'].get('havoc') or {}).items() if isinstance(cl['kwargs'].get('havoc'), dict) else []:
                     eng.havoc_kinds[nm] = kd
             elif cl['kind'] == 'ghost':
-                eng.ghosts.setdefault(cl['kwargs'].get('after_loop', 0), []).append(cl)
+                if 'before_loop' in cl['kwargs']:
+                    eng.ghosts.setdefault(('before', cl['kwargs']['before_loop']), []).append(cl)
+                else:
+                    eng.ghosts.setdefault(cl['kwargs'].get('after_loop', 0), []).append(cl)
         eng.inv_funcs = spec_engine(c.sidecar, c.fd, c.target, registry).spec_funcs
         raises = [cl for cl in pre if cl['kind'] == 'raises']
         # cover: the precondition is satisfiable (vacuity guard)
